@@ -120,16 +120,26 @@ static void diStructs(Module &M, json::Object &root) {
   json::Object out; json::Object enums;
   for (DIType *T : F.types()) {
     auto *Cm = dyn_cast<DICompositeType>(T);
+    std::string tdName;
+    if (!Cm) {
+      // typedef struct { ... } NAME;  -> register the anonymous composite under the typedef's name
+      auto *TD = dyn_cast<DIDerivedType>(T);
+      if (TD && TD->getTag() == dwarf::DW_TAG_typedef) {
+        auto *B = dyn_cast_or_null<DICompositeType>(TD->getBaseType());
+        if (B && B->getName().empty()) { Cm = B; tdName = TD->getName().str(); }
+      }
+    }
     if (!Cm) continue;
     if (Cm->getTag() == dwarf::DW_TAG_enumeration_type) {
       json::Object vals;
       for (auto *E : Cm->getElements()) if (auto *En = dyn_cast<DIEnumerator>(E)) vals[En->getName().str()] = En->getValue().getSExtValue();
-      std::string n = Cm->getName().str(); if (n.empty()) n = "anon@" + std::to_string(Cm->getLine());
+      std::string n = Cm->getName().str(); if (n.empty()) n = tdName; if (n.empty()) n = "anon@" + std::to_string(Cm->getLine());
       enums[n] = std::move(vals);
       continue;
     }
     if (Cm->getTag() != dwarf::DW_TAG_structure_type && Cm->getTag() != dwarf::DW_TAG_union_type) continue;
-    if (Cm->getName().empty()) continue;
+    std::string cname = Cm->getName().empty() ? tdName : Cm->getName().str();
+    if (cname.empty()) continue;
     json::Array mem;
     for (auto *E : Cm->getElements()) {
       auto *D = dyn_cast<DIDerivedType>(E);
@@ -138,7 +148,7 @@ static void diStructs(Module &M, json::Object &root) {
       uint64_t bsz = bt ? bt->getSizeInBits() : 0;
       mem.push_back(json::Object{{"name", D->getName().str()}, {"off", (int64_t)(D->getOffsetInBits() / 8)}, {"size", (int64_t)(D->getSizeInBits() / 8)}, {"type", diTypeName(D->getBaseType())}, {"basebits", (int64_t)bsz}});
     }
-    out[Cm->getName().str()] = json::Object{{"size", (int64_t)(Cm->getSizeInBits() / 8)}, {"members", std::move(mem)}};
+    out[cname] = json::Object{{"size", (int64_t)(Cm->getSizeInBits() / 8)}, {"members", std::move(mem)}};
   }
   root["distructs"] = std::move(out);
   root["dienums"] = std::move(enums);
